@@ -33,6 +33,7 @@ type caseJ struct {
 	Cfg      g.SimConfig `json:"cfg"`
 	Ops      []g.SimOp   `json:"ops"`
 	Complete bool        `json:"complete"` // every share message reaches every other keyper (up to n-t losses per receiver), every keys message everyone
+	Rounds   bool        `json:"rounds,omitempty"` // several trigger rounds with different identity lists: only the quiescence part of the oracle applies
 	Origin   string      `json:"origin"`
 }
 
@@ -239,6 +240,47 @@ func randomSchedule(r *vh.RNG, fl string, n, t, nid int) *caseJ {
 		Origin: fmt.Sprintf("random:%s:n=%d,t=%d,triggered=%d", fl, n, t, k)}
 }
 
+// twoRounds: every keyper is triggered for the first identity only, these share messages and
+// the keys messages are delivered; then every keyper is triggered for both identities (the
+// key of the first one exists by then) and those messages are delivered.
+func twoRounds(r *vh.RNG, fl string, n, t int) *caseJ {
+	var ops []g.SimOp
+	round := func(sel []int, slot, txp int64) {
+		var evs []event
+		for i := 0; i < n; i++ {
+			evs = append(evs, event{trigger: true, from: i})
+			for j := 0; j < n; j++ {
+				if j != i {
+					evs = append(evs, event{from: i, to: j})
+				}
+			}
+		}
+		triggered := map[int]bool{}
+		for len(evs) > 0 {
+			var ready []int
+			for i, e := range evs {
+				if e.trigger || triggered[e.from] {
+					ready = append(ready, i)
+				}
+			}
+			i := ready[r.Intn(len(ready))]
+			e := evs[i]
+			evs = append(evs[:i], evs[i+1:]...)
+			if e.trigger {
+				triggered[e.from] = true
+				ops = append(ops, g.SimOp{K: "T", Node: e.from, Ids: sel, Slot: slot, Txp: txp})
+			} else {
+				ops = append(ops, g.SimOp{K: "S", From: e.from, Node: e.to})
+			}
+		}
+		ops = append(ops, g.SimOp{K: "K"})
+	}
+	round([]int{0}, g.SimSlot, g.SimTxp)
+	round([]int{0, 1}, g.SimSlot+1, g.SimTxp+1)
+	return &caseJ{Cfg: g.SimConfig{Flavour: fl, N: n, T: t, Idents: idents(fl, 2)}, Ops: ops, Complete: true, Rounds: true,
+		Origin: fmt.Sprintf("rounds:%s:n=%d,t=%d", fl, n, t)}
+}
+
 // partialSchedule: an arbitrary prefix-like schedule (not everything is delivered): only the
 // conditional part of the oracle applies.
 func partialSchedule(r *vh.RNG, fl string, n, t int) *caseJ {
@@ -271,7 +313,11 @@ func oracle(run *vh.Run, c *caseJ, res *g.SimResult) {
 		}
 		for _, p := range st.Pubs {
 			f := strings.Split(p, ":")
-			if f[1] != "accept" {
+			if f[1] != "accept" && !(c.Rounds && fl == "gnosis" && f[0] == "keys") {
+				// (a Gnosis keyper that derives the keys of a later slot before its own trigger for
+				// that slot still holds the previous trigger row: its middleware attaches the old
+				// slot's signatures, and the local validation drops that message - the hypothesis
+				// "the current trigger row names the tuple" of C03_single_node_progress)
 				violate("own-publish-rejected", fmt.Sprintf("step %d: a node's own %s message does not pass its own validator (%s)", i, f[0], f[1]), st)
 			}
 			if f[0] == "keys" && fl != "core" {
@@ -283,7 +329,7 @@ func oracle(run *vh.Run, c *caseJ, res *g.SimResult) {
 					fmt.Sscan(x, &v)
 					idx = append(idx, v)
 				}
-				if len(idx) != c.Cfg.T || !sort.IntsAreSorted(idx) {
+				if (len(idx) != c.Cfg.T || !sort.IntsAreSorted(idx)) && f[1] == "accept" {
 					violate("keys-message-signer-set", fmt.Sprintf("step %d: keys message with signers %v (threshold %d)", i, idx, c.Cfg.T), st)
 				}
 			}
@@ -327,6 +373,9 @@ func oracle(run *vh.Run, c *caseJ, res *g.SimResult) {
 			continue
 		}
 		switch {
+		case c.Rounds && c.Complete:
+			violate("no-key-at-quiescence", fmt.Sprintf("keyper %d lacks a key although every keyper was triggered for every identity and all messages were delivered", j), rows)
+		case c.Rounds:
 		case len(res.ForeignShares[j]) >= c.Cfg.T:
 			violate("no-key-after-t-share-messages", fmt.Sprintf("keyper %d handled share messages of %d distinct keypers and stores no key", j, len(res.ForeignShares[j])), rows)
 		case res.CompletedOwn[j]:
@@ -345,7 +394,7 @@ func main() {
 	run := vh.Start("Verif.Corr.C03", 60)
 	defer run.Finish()
 	run.SetPreamble("From Verif Require Import Model.EpochKG Model.EpochKGLabels Model.EpochKGHandler Model.GossipNet.\nOpen Scope N_scope.")
-	run.Rule = "schedules on n real handler stacks per flavour: (core, n=3, t=2, one identity) all interleavings of the three triggers and six share deliveries up to renaming of the nodes, keys messages delivered lazily (keys messages delivered lazily; thorough: eagerly as well), all interleavings with two triggered keypers; sampled complete schedules with losses (up to n-t share messages per receiver), duplicates, repeated triggers for core / service / Gnosis (+ access node), n <= 5, one or two identities; sampled partial schedules; non-trivial = at least one keys message was published; distinct by canonical rendering of configuration and schedule"
+	run.Rule = "schedules on n real handler stacks per flavour: (core, n=3, t=2, one identity) all interleavings of the three triggers and six share deliveries up to renaming of the nodes, keys messages delivered lazily (keys messages delivered lazily; thorough: eagerly as well), all interleavings with two triggered keypers; sampled complete schedules with losses (up to n-t share messages per receiver), duplicates, repeated triggers for core / service / Gnosis (+ access node), n <= 5, one or two identities; sampled partial schedules; sampled two-round schedules (every keyper triggered for the first identity, then for both); non-trivial = at least one keys message was published; distinct by canonical rendering of configuration and schedule"
 	workers := runtime.NumCPU() / 2
 	if workers < 1 {
 		workers = 1
@@ -415,6 +464,10 @@ func main() {
 			for i, n := 0, run.Scale(40, 600); i < n; i++ {
 				sh := shapes[run.RNG.Intn(len(shapes))]
 				emit(partialSchedule(run.RNG.Fork(), fl, sh[0], sh[1]))
+			}
+			for i, n := 0, run.Scale(25, 400); i < n; i++ {
+				sh := shapes[run.RNG.Intn(len(shapes))]
+				emit(twoRounds(run.RNG.Fork(), fl, sh[0], sh[1]))
 			}
 		}
 	}
